@@ -57,7 +57,7 @@ def run(rep, tier, seed, rng):
     nproj = 40 if tier == "quick" else 400
     base = []
     from .. import directed
-    for f, c in directed.cases():
+    for f, c in directed.cases_portable():
         if sum(len(doc.get(k) or []) for docs in f.values() for doc in docs for k in ("apps", "builders")) >= 3:
             base.append((f, {k: v for k, v in c.items() if k not in ("builders", "apps", "local")}))
     ndirected = len(base)
